@@ -25,7 +25,11 @@ ONE = datetime.timedelta(days=1)
 
 
 def _index(d):
-    return WINDOW.index(d) if d in WINDOW else 10 + WIDE.index(d)
+    if d in WINDOW:
+        return WINDOW.index(d)
+    if d in WIDE:
+        return 10 + WIDE.index(d)
+    return 30 + (d.toordinal() % 9973)        # any other date (big files): distinct within any window of 27 years
 
 
 def cell_values(i):
@@ -322,6 +326,23 @@ def wide_items():
     return out
 
 
+def big_items(tier):
+    """files of 700 (thorough: 1 300 and 2 700) consecutive business-day rows, written newest first, a few missing cells"""
+    out = []
+    for n in (700,) if tier == "quick" else (1300, 2700):
+        dates, d = [], datetime.date(2009, 1, 5)
+        while len(dates) < n:
+            if d.weekday() < 5:
+                dates.append(d)
+            d += datetime.timedelta(days=1)
+        pat = [[1, 1] if i % 211 else [0, 1] for i in range(n)]
+        pat[0] = [1, 1]
+        for adjust in (False, True):
+            out.append({'dates': [x.isoformat() for x in dates], 'pattern': pat, 'order': list(range(n))[::-1], 'adjust': adjust,
+                        'differential': False})
+    return out
+
+
 def two_items():
     out = []
     for second in (1, 2, 3):
@@ -347,6 +368,7 @@ def run(tier, res, is_known):
     product(point, its, res, is_known, label='datasets', sample_every=811, chunk=8)
     product(two_source_point, two_items(), res, is_known, label='two sources / two assets')
     product(point, wide_items(), res, is_known, label='files spanning decades', chunk=2)
+    product(point, big_items(tier), res, is_known, label='files of thousands of rows', chunk=1, sample_every=10 ** 9)
     res.transitions = res.extra.get('queries', res.transitions)
 
 
